@@ -114,11 +114,11 @@ def gen_cases(tier, seed):
 
     for n in range(2, (6 if quick else 7) + 1):
         pats = all_patterns(n).tolist()
-        for api, dtype in (("gu", "int16"), ("gund", "float32")):
+        for api, dtype in (("gu", "int16"), ("gund", "float32")) if n <= 6 else (("gu", "int16"),):
             for a in range(0, len(pats), 400):
                 add({"op": "bulk", "n": n, "xs": pats[a : a + 400], "api": api, "dtype": dtype, "f32": True})
-    for _ in range(200 if quick else 2500):
-        n = rng.randint(2, 40 if quick else 200)
+    for _ in range(200 if quick else 1000):
+        n = rng.randint(2, 40 if quick else 200) if rng.random() < 0.15 or quick else rng.randint(2, 80)
         dtype = rng.choice(["int16", "float32"])
         style = rng.choice(["ties", "trend", "noise", "fewvals"])
         if style == "ties":
